@@ -30,6 +30,9 @@ CHECKS = {
  'C05': dict(text="Machine-checked Lean 4 proofs in the model algebra over any commutative ring, any n and signature: X*M=1 iff M*X=1 (Dedekind-finiteness of matrices), hence inverses are unique and all methods that return an inverse agree; normalInv is the two-sided inverse when ~M*M is an invertible scalar; a zero divisor (in particular every multiple of 1+e with e*e=1) has no inverse; the __pow__ loop is the k-fold product and (M^-1)^k inverts M^k. PARTIAL: for the closed-form (n<=5) and Shirokov methods only the final step (numerator/denominator is the inverse if M*numerator is that scalar) is a theorem; the executable models of both algorithms are compared with an exact Gauss-Jordan inverse (certified by the model product) on every input. Tied to /repo by running inv/normalInv/hitzer_inverse/shirokov_inverse/leftLaInv, /, s/M and ** of the real library on versors, blades, dense, near-scalar and scaled inputs for all signature classes against the exact rational inverse (both sides, conditioning-scaled tolerance), and the singular families for the ValueError contract; both JIT configurations.",
              technique="Lean 4 proof (left-inverse = right-inverse via matrix embedding; partial for closed forms) + exact-rational oracle correspondence",
              design="§6 C05"),
+ 'C19': dict(text="Machine-checked Lean 4 proofs about a token-level model of __str__ and of parse_multivector's state machine (the if/elif chain token for token, with error positions): parse(print(terms)) returns exactly the accumulated coefficients for every list of integer terms of any length, blade indices and scalar index; the result is independent of term order; whitespace/parentheses never change the state; each malformed pattern named in the property (two coefficients in a row, dangling sign/wedge, unknown blade) reaches the SyntaxError branch at the offending token; printing with p decimals moves a coefficient by at most half a unit of the print precision. Tied to /repo by comparing the real tokenizer's token stream of str(M) and the real parse results and SyntaxError offsets with the model, and by running str->parse (ints exactly, floats to half a unit for precisions 1..12, sub-eps dropped, whitespace and order variants), MultiVector(layout, string=...), and eval(repr(M)) with pretty-printing off (layout, dtype, coefficients) for default/custom/prefix names and predefined layouts.",
+             technique="Lean 4 proof (induction over the printed term list against the parser state machine) + tokenizer/parser correspondence",
+             design="§6 C19"),
 }
 
 def main():
